@@ -284,7 +284,7 @@ fn edge_of_range_space(ctx: &Ctx) {
         }
     }
     ctx.lattice(
-        "edge of the f64 range: tridiag(-1,2,-1) and diag(1..n) of order 1..3, A scaled by 1e200..1e-200, b by 1e-150..1.7e308, two right-hand-side shapes, tol 1e-8 and 1e-10, budget 8, 5 solvers",
+        "edge of the f64 range: tridiag(-1,2,-1) and diag(1..n) of order 1..3, A scaled by 1e200..1e-200, b by 1e-150..1.7e308, four right-hand-side shapes (one without a positive entry, one with a zero), tol 1e-8 and 1e-10, budget 8, 5 solvers",
         cases.len() as u64,
         |i| format!("{:?}", cases[i as usize]),
         |i, acc| {
@@ -304,7 +304,14 @@ fn edge_of_range_space(ctx: &Ctx) {
             let a = sparse_of(&d, 0);
             let j = Judge { d: &d, a: &a, anorm: norm_inf_mat(&d) };
             acc.hit("edge-of-range systems");
-            let bs: Vec<Vec<f64>> = vec![vec![sbs[ib]; n], (0..n).map(|k| d[k][k] * sbs[ib].min(1e300 / sas[ia].max(1.0))).collect()];
+            // (the third shape has NO positive entry, the fourth none negative but a zero: a norm whose rescaling pass takes the largest ENTRY
+            // instead of the largest modulus reads such a right-hand side as 0 below 1e-135 / above 1e135, and every solver answers Ok(0))
+            let bs: Vec<Vec<f64>> = vec![
+                vec![sbs[ib]; n],
+                (0..n).map(|k| d[k][k] * sbs[ib].min(1e300 / sas[ia].max(1.0))).collect(),
+                (0..n).map(|k| -sbs[ib].min(1e300) * (1.0 + k as f64 * 0.5)).collect(),
+                (0..n).map(|k| if k == 0 { 0.0 } else { sbs[ib].min(1e300) }).collect(),
+            ];
             for b in bs.iter() {
                 if b.iter().any(|v| !v.is_finite()) {
                     continue;
